@@ -781,6 +781,13 @@ class Interp:
         m = self.lib.method(v, name)
         if m is not NOTFOUND:
             return m
+        if isinstance(v, Native) and getattr(v, 'name', None) == 'dict' and name == 'fromkeys':
+            def fromkeys(keys, value=None):
+                d = VDict()
+                for k in self.iterate(keys):
+                    self.setitem(d, k, value)
+                return d
+            return Native('dict.fromkeys', fromkeys)
         raise Unsupported(f'attribute {name} of {type(v).__name__}')
 
     def mro(self, cls):
